@@ -201,6 +201,11 @@ impl<T: Zero> Zero for Wrapping<T> {
     fn zero() -> Self {
         Wrapping(T::zero())
     }
+
+    #[inline]
+    fn set_zero(&mut self) {
+        self.0.set_zero()
+    }
 }
 
 impl<T: num_traits::Zero + WrappingAdd> num_traits::Zero for Wrapping<T> {
